@@ -1,22 +1,796 @@
 package nfsreplay
 
 import (
+	"bytes"
+	"fmt"
+	"strings"
 	"testing"
+	"testing/synctest"
+
+	"github.com/buildbarn/go-xdr/pkg/protocols/nfsv4"
 
 	"verifharness/internal/hx"
 	"verifharness/internal/nfsx"
 )
 
-const have40 = false
+// ---------------------------------------------------------------------------
+// NFSv4.0: history ops (first op of the history is "v40"; two clients are
+// registered up front)
+//
+//	open R C O Q F A H [park]   OPEN(CLAIM_NULL "f" in d<F>) by client C, open-owner O, seqid Q, access A, createhow H
+//	oprev R C O Q F A [park]    OPEN(CLAIM_PREVIOUS) on file F
+//	confirm R X Q               OPEN_CONFIRM with the state ID returned by request X, seqid Q
+//	down R X Q A                OPEN_DOWNGRADE
+//	close R X Q                 CLOSE
+//	lock R X Q LQ off len T     LOCK, new lock-owner "lo<R>", open seqid Q, lock seqid LQ
+//	lockx R Y Q off len T       LOCK, existing lock-owner: lock state ID of request Y, lock seqid Q
+//	locku R Y Q off len         LOCKU
+//	dup R                       retransmit request R (identical arguments)
+//	rel R                       release the gate at which request R (an OPEN) is parked
+//
+// Every request is the compound [PUTFH, <op>]. A state ID "returned by request
+// X" is the one in X's first reply that carried one.
+// ---------------------------------------------------------------------------
 
-type run40 struct {
-	label int
+const have40 = true
+
+const (
+	kOpen = iota
+	kConfirm
+	kDown
+	kClose
+	kLock
+	kLocku
+)
+
+var advancingExcluded = map[uint32]bool{10022: true, 10023: true, 10025: true, 10026: true, 10036: true, 10018: true, 10020: true, 10019: true}
+
+type req40 struct {
+	id       int
+	kind     int
+	lockTx   bool // lock-owner transaction (lockx, locku)
+	client   int
+	owner    int // harness index of the open-owner (client, name); -1 unknown
+	ownerKey string
+	seq      uint32
+	file     int
+	args     []nfsv4.NfsArgop4
+	argSid   nfsv4.Stateid4
+	parkKind string
+	gate     *nfsx.Gate
+	dirLock  int // directory whose lock the parked call holds (-1 none)
+	calls    []*call40
+	mark     int
+	lockOwn  int
+	lockSeq  uint32
+	falseOf  *req40
+	consCall *call40 // the call that ran the transaction which advanced the owner under this seqid
 }
 
-func newRun40(t *testing.T, w *nfsx.World, drv *hx.Driver, out *outcome) *run40 { return &run40{} }
-func (r *run40) op(op string) bool                                               { return false }
-func (r *run40) finalize()                                                       {}
-func (r *run40) checkBlocked()                                                   {}
-func makeGen40(rnd *hx.Rand) func(state any, step int) string {
-	return func(any, int) string { return "" }
+type call40 struct {
+	id        int
+	req       *req40
+	done      chan struct{}
+	res       *nfsv4.Compound4res
+	err       error
+	bytes     []byte
+	returned  bool
+	observed  bool
+	effBefore int
+	label     int
+	mOut      string
+	mOwner    string
+	finished  bool
+	retransOf *call40
+	fresh     bool
+	accepted  bool // the transaction was started for this call (or it waits for / is the running one)
+	consumed  bool // ... and advanced the owner's seqid
+	expectBad bool
+	opStatus  uint32
+}
+
+type run40 struct {
+	t   *testing.T
+	w   *nfsx.World
+	p   nfsv4.Nfs4Program
+	drv *hx.Driver
+	out *outcome
+
+	clients   []uint64
+	reqs      map[int]*req40
+	calls     []*call40
+	owners    map[string]int
+	others    map[[12]byte]int
+	confirmed map[int]bool
+	lastCons  map[int]*req40 // owner -> last request that advanced its seqid
+	touched   map[int]int
+	consumed  map[[2]int]*req40 // (owner, seq) -> request that advanced the owner under that seqid
+	lockCons  map[[2]int]*req40 // (lock other, seq)
+	dirBusy   map[int]int     // directory -> owner of the OPEN parked inside its lock
+	lastLock  map[int]*req40  // lock state ID other -> last lock-owner request that advanced
+	inflight  map[int]*req40  // owner -> request whose transaction is running (OPEN parked)
+	label     int
+}
+
+func newRun40(t *testing.T, w *nfsx.World, drv *hx.Driver, out *outcome) *run40 {
+	r := &run40{t: t, w: w, p: w.NewNFS40(), drv: drv, out: out, reqs: map[int]*req40{}, owners: map[string]int{},
+		others: map[[12]byte]int{}, confirmed: map[int]bool{}, lastCons: map[int]*req40{}, touched: map[int]int{},
+		consumed: map[[2]int]*req40{}, lockCons: map[[2]int]*req40{}, dirBusy: map[int]int{}, lastLock: map[int]*req40{}, inflight: map[int]*req40{}}
+	for c := 0; c < 2; c++ {
+		id, err := nfsx.Register40(r.p, fmt.Sprintf("client%d", c), 1)
+		if err != nil {
+			out.monitor = "SETCLIENTID failed: " + err.Error()
+		}
+		r.clients = append(r.clients, id)
+	}
+	if drv != nil {
+		if o, err := drv.Ask("40 reset"); err != nil || o != "ok" {
+			r.failMismatch("driver", "ok", o, "reset: %v", err)
+		}
+	}
+	return r
+}
+
+func (r *run40) failMonitor(format string, a ...any) {
+	if r.out.monitor == "" {
+		r.out.monitor = fmt.Sprintf(format, a...)
+	}
+}
+
+func (r *run40) failMismatch(name, expected, actual, format string, a ...any) {
+	if r.out.mismatch == "" {
+		r.out.mismatch = fmt.Sprintf(format, a...)
+		r.out.name, r.out.expected, r.out.actual = name, expected, actual
+	}
+}
+
+const name40 = "correspondence Model/Replay40.lean <-> nfs40_program.go (startTransaction / complete / replay checks; theorems C19.same_reply_40, seq_advance_rule_40, false_retry_40, misordered_no_effect_40)"
+
+func (r *run40) ask(line string) string {
+	if r.drv == nil || r.out.mismatch != "" {
+		return ""
+	}
+	o, err := r.drv.Ask("40 " + line)
+	if err != nil {
+		r.failMismatch("driver", "", "", "driver: %v", err)
+		return ""
+	}
+	r.out.steps++
+	return o
+}
+
+func (r *run40) other(sid nfsv4.Stateid4) int {
+	if _, ok := r.others[sid.Other]; !ok {
+		r.others[sid.Other] = len(r.others)
+	}
+	return r.others[sid.Other]
+}
+
+func (q *req40) firstReturned() *call40 {
+	for _, c := range q.calls {
+		if c.returned {
+			return c
+		}
+	}
+	return nil
+}
+
+func (q *req40) orig() *call40 {
+	for _, c := range q.calls {
+		if c.accepted {
+			return c
+		}
+	}
+	return nil
+}
+
+// opRes is the result of the transaction op of a [PUTFH, op] compound (nil if
+// the compound stopped before it).
+func opRes(res *nfsv4.Compound4res) nfsv4.NfsResop4 {
+	if len(res.Resarray) == 2 {
+		return res.Resarray[1]
+	}
+	return nil
+}
+
+func opBytes(res *nfsv4.Compound4res) []byte {
+	o := opRes(res)
+	if o == nil {
+		return nil
+	}
+	var b bytes.Buffer
+	o.WriteTo(&b)
+	return b.Bytes()
+}
+
+// sidOf: the state ID carried by the first reply of request x that had one.
+func (r *run40) sidOf(x int) (nfsv4.Stateid4, *req40) {
+	q, ok := r.reqs[x]
+	if !ok {
+		return nfsv4.Stateid4{Seqid: 1, Other: [12]byte{0x76, 0x65, 0x72, 0x69, 9, 9}}, nil
+	}
+	for _, c := range q.calls {
+		if c.returned && c.res != nil {
+			if sid, ok := nfsx.OpenStateID(c.res); ok {
+				return sid, q
+			}
+			if sid, ok := nfsx.ResultStateID(c.res); ok {
+				return sid, q
+			}
+		}
+	}
+	return nfsv4.Stateid4{Seqid: 1, Other: [12]byte{0x76, 0x65, 0x72, 0x69, 9, 9}}, q
+}
+
+func (r *run40) ownerIndex(client, owner int) (int, string) {
+	key := fmt.Sprintf("%d/%d", client, owner)
+	if _, ok := r.owners[key]; !ok {
+		r.owners[key] = len(r.owners)
+	}
+	return r.owners[key], key
+}
+
+func kindOfRes(x nfsv4.NfsResop4) int {
+	switch x.(type) {
+	case *nfsv4.NfsResop4_OP_OPEN:
+		return kOpen
+	case *nfsv4.NfsResop4_OP_OPEN_CONFIRM:
+		return kConfirm
+	case *nfsv4.NfsResop4_OP_OPEN_DOWNGRADE:
+		return kDown
+	case *nfsv4.NfsResop4_OP_CLOSE:
+		return kClose
+	case *nfsv4.NfsResop4_OP_LOCK:
+		return kLock
+	case *nfsv4.NfsResop4_OP_LOCKU:
+		return kLocku
+	}
+	return -1
+}
+
+func opStatus(res *nfsv4.Compound4res) uint32 { return uint32(res.Status) }
+
+func (r *run40) build(f []string) (*req40, bool) {
+	arg := func(i int) int {
+		if i < len(f) {
+			return atoi(f[i])
+		}
+		return 0
+	}
+	if len(f) < 2 {
+		return nil, false
+	}
+	q := &req40{id: arg(1), owner: -1, dirLock: -1, lockOwn: 0}
+	if _, dup := r.reqs[q.id]; dup || q.id < 0 {
+		return nil, false
+	}
+	body := f
+	if last := f[len(f)-1]; last == "park" {
+		q.parkKind = "open"
+		body = f[:len(f)-1]
+	}
+	n := len(body)
+	lt := func(i int) nfsv4.NfsLockType4 {
+		if arg(i)%2 == 1 {
+			return nfsv4.READ_LT
+		}
+		return nfsv4.WRITE_LT
+	}
+	switch f[0] {
+	case "open":
+		if n != 8 {
+			return nil, false
+		}
+		q.kind, q.client, q.seq, q.file = kOpen, arg(2)%2, uint32(arg(4)), arg(5)%numFiles
+		q.owner, q.ownerKey = r.ownerIndex(q.client, arg(3)%numOwners)
+		q.args = []nfsv4.NfsArgop4{nfsx.PutFH(r.w.DirHandles[q.file]),
+			nfsx.OpenNull(r.clients[q.client], fmt.Sprintf("oo%d", arg(3)%numOwners), q.seq, uint32(1+arg(6)%3), nfsx.OpenHow(arg(7)%3), "f")}
+		if q.parkKind != "" {
+			q.parkKind = "openchild"
+		}
+	case "oprev":
+		if n != 7 {
+			return nil, false
+		}
+		q.kind, q.client, q.seq, q.file = kOpen, arg(2)%2, uint32(arg(4)), arg(5)%numFiles
+		q.owner, q.ownerKey = r.ownerIndex(q.client, arg(3)%numOwners)
+		q.args = []nfsv4.NfsArgop4{nfsx.PutFH(r.w.FileHandles[q.file]),
+			nfsx.OpenPrevious(r.clients[q.client], fmt.Sprintf("oo%d", arg(3)%numOwners), q.seq, uint32(1+arg(6)%3))}
+	case "confirm", "down", "close", "lock":
+		r.out.refs[arg(2)] = true
+		sid, x := r.sidOf(arg(2))
+		if x != nil {
+			q.file, q.client, q.owner, q.ownerKey = x.file, x.client, x.owner, x.ownerKey
+		}
+		q.argSid, q.seq = sid, uint32(arg(3))
+		fh := nfsx.PutFH(r.w.FileHandles[q.file])
+		switch f[0] {
+		case "confirm":
+			if n != 4 {
+				return nil, false
+			}
+			q.kind, q.args = kConfirm, []nfsv4.NfsArgop4{fh, nfsx.OpenConfirm(sid, q.seq)}
+		case "down":
+			if n != 5 {
+				return nil, false
+			}
+			q.kind, q.args = kDown, []nfsv4.NfsArgop4{fh, nfsx.OpenDowngrade(sid, q.seq, uint32(1+arg(4)%3))}
+		case "close":
+			if n != 4 {
+				return nil, false
+			}
+			q.kind, q.args = kClose, []nfsv4.NfsArgop4{fh, nfsx.Close(sid, q.seq)}
+		case "lock":
+			if n != 8 {
+				return nil, false
+			}
+			q.kind, q.lockSeq = kLock, uint32(arg(4))
+			q.lockOwn = q.id
+			q.args = []nfsv4.NfsArgop4{fh, nfsx.LockNew(lt(7), uint64(arg(5)), uint64(1+arg(6)), q.seq, sid, q.lockSeq, r.clients[q.client], fmt.Sprintf("lo%d", q.id))}
+		}
+	case "lockx", "locku":
+		r.out.refs[arg(2)] = true
+		sid, y := r.sidOf(arg(2))
+		if y != nil {
+			q.file, q.client = y.file, y.client
+		}
+		q.lockTx, q.argSid, q.seq = true, sid, uint32(arg(3))
+		fh := nfsx.PutFH(r.w.FileHandles[q.file])
+		if f[0] == "lockx" {
+			if n != 7 {
+				return nil, false
+			}
+			q.kind, q.args = kLock, []nfsv4.NfsArgop4{fh, nfsx.LockExisting(lt(6), uint64(arg(4)), uint64(1+arg(5)), sid, q.seq)}
+		} else {
+			if n != 6 {
+				return nil, false
+			}
+			q.kind, q.args = kLocku, []nfsv4.NfsArgop4{fh, nfsx.LockU(nfsv4.WRITE_LT, uint64(arg(4)), uint64(1+arg(5)), sid, q.seq)}
+		}
+	default:
+		return nil, false
+	}
+	if q.parkKind != "" && q.kind != kOpen {
+		return nil, false
+	}
+	return q, true
+}
+
+func (r *run40) start(q *req40) {
+	c := &call40{id: len(r.calls), req: q, done: make(chan struct{}), label: r.label}
+	r.calls = append(r.calls, c)
+	first := len(q.calls) == 0
+	// client-side classification
+	if !q.lockTx && q.owner >= 0 {
+		k2 := [2]int{q.owner, int(q.seq)}
+		last := r.lastCons[q.owner]
+		if x := r.inflight[q.owner]; x != nil && x != q {
+			last = x // a newer request of the owner is executing: this one is handled after it
+		}
+		if cons := r.consumed[k2]; cons != nil && cons != q && first && (last == cons || r.confirmed[q.owner]) {
+			q.falseOf = cons
+		}
+		if q.falseOf == nil && r.consumed[k2] == q {
+			// retransmission of a request that advanced the owner's seqid: without effect
+			// if it is still the owner's last one or the owner is confirmed
+			if last == q || r.confirmed[q.owner] {
+				c.retransOf = q.consCall
+				r.out.dropped[c.label] = true
+			}
+		} else if q.falseOf != nil && (last == q.falseOf || r.confirmed[q.owner]) {
+			r.out.dropped[c.label] = true
+		}
+		if o := q.orig(); o != nil && !o.returned && c.retransOf == nil && q.falseOf == nil {
+			// the original is executing right now
+			c.retransOf = o
+			r.out.dropped[c.label] = true
+		}
+		if !first && c.retransOf == nil && q.falseOf == nil {
+			r.touched[q.owner]++
+			q.mark = r.touched[q.owner]
+		}
+		c.fresh = r.touched[q.owner] == q.mark
+		if r.confirmed[q.owner] && last != nil && c.retransOf == nil && q.falseOf == nil {
+			c.expectBad = q.seq != last.seq && q.seq != nextSeq40(last.seq)
+		}
+	} else if q.lockTx {
+		lk := r.other(q.argSid)
+		if o := q.firstReturned(); o != nil && !advancingExcluded[uint32(o.res.Status)] {
+			// the lock-owner's seqid was advanced by the original: no effect from now on
+			c.retransOf = o
+			r.out.dropped[c.label] = true
+			c.fresh = r.lastLock[lk] == q
+		}
+	}
+	if !first && !r.out.dropped[c.label] {
+		r.out.refs[q.id] = true
+	}
+	q.calls = append(q.calls, c)
+
+	// model (open-owner transactions)
+	if !q.lockTx {
+		mOwner := q.owner
+		if mOwner < 0 {
+			mOwner = 9999
+		}
+		out := r.ask(fmt.Sprintf("arrive %d %d %d %d %d %d %d", c.id, q.kind, mOwner, r.other(q.argSid), q.argSid.Seqid, q.seq, q.id))
+		fs := strings.Fields(out)
+		if len(fs) >= 1 {
+			c.mOut = out
+			if (fs[0] == "started" || fs[0] == "waiting") && len(fs) == 2 {
+				c.mOut, c.mOwner = fs[0], fs[1]
+			}
+		}
+	}
+
+	if q.parkKind != "" && first {
+		q.gate = r.w.ParkFor(c.id, q.file, q.parkKind)
+	}
+	c.effBefore = r.w.LogLen()
+	r.w.SetTag(c.id)
+	go func() {
+		c.res, c.err = nfsx.Compound(r.p, 0, q.args...)
+		close(c.done)
+	}()
+	synctest.Wait()
+	r.collect()
+}
+
+func nextSeq40(q uint32) uint32 {
+	if q == 0xffffffff {
+		return 1
+	}
+	return q + 1
+}
+
+func (r *run40) collect() {
+	for i := 0; i < len(r.calls); i++ {
+		c := r.calls[i]
+		if c.observed {
+			continue
+		}
+		select {
+		case <-c.done:
+		default:
+			continue
+		}
+		c.returned, c.observed = true, true
+		if c.err != nil {
+			r.failMonitor("call %d (request %d): %v", c.id, c.req.id, c.err)
+			return
+		}
+		c.bytes = nfsx.Marshal(c.res)
+		r.out.replies[c.label] = c.bytes
+		q := c.req
+		if g := q.gate; g != nil && !g.Entered() && c == q.calls[0] {
+			r.w.Disarm(g)
+			q.gate = nil
+		}
+		if q.dirLock >= 0 && c == q.calls[0] {
+			delete(r.dirBusy, q.dirLock)
+		}
+		if q.owner >= 0 && r.inflight[q.owner] == q && c == q.calls[0] {
+			delete(r.inflight, q.owner)
+		}
+		r.onReturn(c)
+	}
+	for _, c := range r.calls {
+		if !c.returned && !c.accepted {
+			c.accepted = true
+			if g := c.req.gate; g != nil && g.Entered() && c == c.req.calls[0] {
+				if c.req.dirLock >= 0 {
+					r.dirBusy[c.req.dirLock] = c.req.owner
+				}
+				if c.req.owner >= 0 {
+					r.inflight[c.req.owner] = c.req
+				}
+			}
+		}
+	}
+}
+
+func respLine(kind int, res *nfsv4.Compound4res, r *run40, body int) string {
+	st := uint32(res.Status)
+	sid := "- 0"
+	if s, ok := nfsx.OpenStateID(res); ok {
+		sid = fmt.Sprintf("%d %d", r.other(s), s.Seqid)
+	} else if s, ok := nfsx.ResultStateID(res); ok {
+		sid = fmt.Sprintf("%d %d", r.other(s), s.Seqid)
+	}
+	return fmt.Sprintf("%d %d %s %d", kind, st, sid, body)
+}
+
+func (r *run40) onReturn(c *call40) {
+	q := c.req
+	res := c.res
+	st := uint32(res.Status)
+	effects := 0
+	for _, e := range r.w.Log()[c.effBefore:] {
+		if e.Tag == c.id {
+			effects++
+		}
+	}
+	op := opRes(res)
+	if op == nil {
+		r.failMonitor("request %d: the compound stopped before the operation (status %d)", q.id, st)
+		return
+	}
+	if kindOfRes(op) != q.kind {
+		r.failMonitor("request %d (kind %d) was answered with a result of another operation type", q.id, q.kind)
+	}
+	// coverage
+	switch st {
+	case 10026:
+		r.out.flags["misordered"] = true
+	case 10025:
+		r.out.flags["bad-stateid"] = true
+	}
+
+	// ---- monitor ----
+	if c.expectBad && st != 10026 && st != 10025 {
+		r.failMonitor("request %d has seqid %d on a confirmed open-owner whose last seqid is %d: expected NFS4ERR_BAD_SEQID, got status %d", q.id, q.seq, r.lastCons[q.owner].seq, st)
+	}
+	if c.expectBad && effects != 0 {
+		r.failMonitor("request %d with an out-of-order seqid had side effects", q.id)
+	}
+	if o := c.retransOf; o != nil && o != c && q.lockTx {
+		if c.fresh && !bytes.Equal(c.bytes, o.bytes) && st != 10025 {
+			r.failMonitor("retransmission (call %d) of lock request %d got a reply that differs from the original's (status %d vs %d)", c.id, q.id, st, uint32(o.res.Status))
+		}
+	} else if o != nil && o != c {
+		if !o.returned {
+			r.failMonitor("retransmission (call %d) of request %d returned before the original (call %d) finished", c.id, q.id, o.id)
+		} else if c.fresh && r.lastCons[q.owner] == q {
+			if !bytes.Equal(c.bytes, o.bytes) {
+				r.failMonitor("retransmission (call %d) of request %d got a reply that differs from the original's (status %d vs %d)", c.id, q.id, st, uint32(o.res.Status))
+			} else {
+				r.out.flags["dup-cached"] = true
+				if c.mOut == "waiting" || strings.HasPrefix(c.mOut, "waiting") {
+					r.out.flags["dup-inflight-completed"] = true
+				}
+			}
+		}
+	}
+	if f := q.falseOf; f != nil && f.kind != q.kind && r.lastCons[q.owner] == f && st != 10026 && st != 10025 {
+		r.failMonitor("request %d (kind %d) reuses the seqid of request %d (kind %d) and was not refused (status %d)", q.id, q.kind, f.id, f.kind, st)
+	}
+	if q.falseOf != nil && (st == 10026) {
+		r.out.flags["false-retry"] = true
+	}
+	if effects > 0 {
+		r.out.flags["executed-with-effects"] = true
+	}
+
+	// ---- client bookkeeping: did this call run a transaction that advanced the seqid? ----
+	if c.retransOf == nil && q.falseOf == nil && !advancingExcluded[st] {
+		if q.lockTx {
+			r.lastLock[r.other(q.argSid)] = q
+		} else {
+			r.advance(c, st)
+		}
+	}
+	if q.lockTx {
+		r.modelLockTx(c)
+		return
+	}
+	// ---- model ----
+	r.compareReturn(c)
+}
+
+// advance is called when the model/implementation agree that call c ran the
+// transaction and it completed with status st.
+func (r *run40) advance(c *call40, st uint32) {
+	q := c.req
+	if q.owner < 0 {
+		return
+	}
+	if !advancingExcluded[st] {
+		k2 := [2]int{q.owner, int(q.seq)}
+		r.consumed[k2] = q
+		r.lastCons[q.owner] = q
+		q.consCall = c
+		if q.kind == kConfirm && st == 0 {
+			r.confirmed[q.owner] = true
+		}
+	}
+}
+
+func (r *run40) checkReply(c *call40, want string) {
+	op := opRes(c.res)
+	st := uint32(c.res.Status)
+	switch {
+	case strings.HasPrefix(want, "e:"):
+		code := uint32(atoi(want[2:]))
+		if st != code {
+			r.failMismatch(name40, want, fmt.Sprintf("status %d", st), "call %d (request %d): model refuses with %d, implementation answered %d", c.id, c.req.id, code, st)
+		}
+	case strings.HasPrefix(want, "c:"):
+		parts := strings.Split(want[2:], "/")
+		if len(parts) != 4 {
+			r.failMismatch("driver", want, "", "unparsable reply")
+			return
+		}
+		b := atoi(parts[3])
+		if uint32(atoi(parts[1])) != st || b >= len(r.calls) || !bytes.Equal(opBytes(r.calls[b].res), opBytes(c.res)) || op == nil {
+			r.failMismatch(name40, want, fmt.Sprintf("status %d", st), "call %d (request %d): the reply is not the cached response of call %d", c.id, c.req.id, b)
+		}
+	default:
+		r.failMismatch("driver", want, "", "unparsable reply")
+	}
+}
+
+func (r *run40) compareReturn(c *call40) {
+	q := c.req
+	st := uint32(c.res.Status)
+	if r.drv == nil || r.out.mismatch != "" {
+		return
+	}
+	switch {
+	case strings.HasPrefix(c.mOut, "reply "):
+		r.checkReply(c, strings.TrimPrefix(c.mOut, "reply "))
+	case c.mOut == "started":
+		if c.finished {
+			return
+		}
+		c.finished = true
+		lockOwn, lockSeq := 0, uint32(0)
+		if q.kind == kLock {
+			lockOwn, lockSeq = q.lockOwn, q.lockSeq
+		}
+		line := fmt.Sprintf("finish %s %s %d %d", c.mOwner, respLine(q.kind, c.res, r, c.id), lockOwn, lockSeq)
+		out := r.ask(line)
+		fs := strings.Fields(out)
+		if len(fs) < 3 || fs[0] != "done" || atoi(fs[1]) != c.id {
+			r.failMismatch(name40, out, "", "model refused %q", line)
+			return
+		}
+		// woken calls retry
+		if len(fs) == 4 {
+			for _, w := range strings.Split(fs[3], ",") {
+				wc := r.calls[atoi(w)]
+				wq := wc.req
+				mOwner := wq.owner
+				if mOwner < 0 {
+					mOwner = 9999
+				}
+				o := r.ask(fmt.Sprintf("arrive %d %d %d %d %d %d %d", wc.id, wq.kind, mOwner, r.other(wq.argSid), wq.argSid.Seqid, wq.seq, wq.id))
+				ofs := strings.Fields(o)
+				wc.mOut = o
+				if len(ofs) == 2 && (ofs[0] == "started" || ofs[0] == "waiting") {
+					wc.mOut, wc.mOwner = ofs[0], ofs[1]
+				}
+				wc.finished = false
+			}
+		}
+	case c.mOut == "waiting":
+		r.failMismatch(name40, "waiting", fmt.Sprintf("returned status %d", st), "call %d (request %d) returned although the model keeps it waiting for the owner's transaction", c.id, q.id)
+	default:
+		r.failMismatch(name40, c.mOut, "", "model rejected the arrival of call %d", c.id)
+	}
+}
+
+func (r *run40) modelLockTx(c *call40) {
+	q := c.req
+	if r.drv == nil || r.out.mismatch != "" {
+		return
+	}
+	out := r.ask(fmt.Sprintf("locktx %d %d %d %d %s", q.kind, r.other(q.argSid), q.argSid.Seqid, q.seq, respLine(q.kind, c.res, r, c.id)))
+	fs := strings.Fields(out)
+	if len(fs) != 3 || fs[0] != "reply" {
+		r.failMismatch(name40, out, "", "model refused the lock-owner transaction of call %d", c.id)
+		return
+	}
+	r.checkReply(c, fs[1])
+	if fs[2] == "exec=0" && strings.HasPrefix(fs[1], "c:") {
+		r.out.flags["lock-dup-cached"] = true
+	}
+}
+
+func (r *run40) checkBlocked() {
+	if r.drv == nil || r.out.mismatch != "" {
+		return
+	}
+	for _, c := range r.calls {
+		if !c.returned && strings.HasPrefix(c.mOut, "reply ") {
+			r.failMismatch(name40, c.mOut, "still blocked", "call %d (request %d) is still blocked in the implementation although the model answered it", c.id, c.req.id)
+			return
+		}
+	}
+}
+
+func (r *run40) op(op string) bool {
+	f := strings.Fields(op)
+	if len(f) == 0 {
+		return false
+	}
+	switch f[0] {
+	case "dup":
+		if len(f) != 2 {
+			return false
+		}
+		q, ok := r.reqs[atoi(f[1])]
+		if !ok {
+			return false
+		}
+		if x := r.inflight[q.owner]; q.owner >= 0 && x != nil && x != q && !r.confirmed[q.owner] {
+			// on an unconfirmed owner the outcome would depend on the order in which the
+			// waiting calls are woken (the stale OPEN is re-executed, RFC 7530 16.18.5)
+			return false
+		}
+		r.start(q)
+		return true
+	case "rel":
+		if len(f) != 2 {
+			return false
+		}
+		q, ok := r.reqs[atoi(f[1])]
+		if !ok || q.gate == nil || !q.gate.Entered() || q.calls[0].returned {
+			return false
+		}
+		r.w.SetTag(q.calls[0].id)
+		q.gate.Release()
+		q.gate = nil
+		synctest.Wait()
+		r.collect()
+		return true
+	}
+	q, ok := r.build(f)
+	if !ok {
+		return false
+	}
+	if x := r.inflight[q.owner]; q.owner >= 0 && x != nil && x.seq != q.seq {
+		return false // a client does not use the next seqid of an owner before the reply to the previous one
+	}
+	r.reqs[q.id] = q
+	r.out.defs[r.label] = q.id
+	if q.owner >= 0 {
+		r.touched[q.owner]++
+		q.mark = r.touched[q.owner]
+	}
+	r.start(q)
+	return true
+}
+
+func isClaimNull(q *req40) bool {
+	if len(q.args) < 2 {
+		return false
+	}
+	o, ok := q.args[1].(*nfsv4.NfsArgop4_OP_OPEN)
+	if !ok {
+		return false
+	}
+	_, ok = o.Opopen.Claim.(*nfsv4.OpenClaim4_CLAIM_NULL)
+	return ok
+}
+
+func (r *run40) finalize() {
+	for guard := 0; guard < 20; guard++ {
+		progress := false
+		for _, c0 := range r.calls {
+			q := c0.req
+			if c0 == q.calls[0] && q.gate != nil && q.gate.Entered() && !c0.returned {
+				r.w.SetTag(c0.id)
+				q.gate.Release()
+				q.gate = nil
+				synctest.Wait()
+				r.collect()
+				progress = true
+			}
+		}
+		if !progress {
+			break
+		}
+	}
+	r.w.ReleaseAll()
+	synctest.Wait()
+	r.collect()
+	for _, c := range r.calls {
+		if !c.returned {
+			r.failMonitor("call %d (request %d) never returned although the transaction it waited for has finished", c.id, c.req.id)
+			break
+		}
+	}
+	if r.out.monitor == "" {
+		r.checkBlocked()
+	}
 }
